@@ -631,9 +631,9 @@ def r8(c):
             "ordered tree (an added row of an ordered block is shown after the rows it precedes)", key_text="diff-as-given")
 
 
-def r10(c):
+def r10(c, rid="C03.R10"):
     repo = c.repo
-    c.rule("C03.R10", "case is folded per rule, not per block: in rulebook.common._ignore_case a row is replaced by its lower-case form only under that row's own %ignore_case "
+    c.rule(rid, "case is folded per rule, not per block: in rulebook.common._ignore_case a row is replaced by its lower-case form only under that row's own %ignore_case "
                       "attribute (diff_pre[row]['match']['attrs']['ignore_case']) — folding every row of a block that merely contains one such rule makes case-only changes of "
                       "the other rows (descriptions, names, passwords) disappear from the diff and reports rows that exist in neither input")
     m = repo.module(COMMON)
@@ -651,5 +651,5 @@ def r10(c):
             return "row_ignore_case" if t in (f"diff_pre[{R}]['match']['attrs']['ignore_case']", f"diff_pre[{R}]['match']['attrs'].get('ignore_case')",
                                                f"diff_pre[{R}]['match']['attrs'].get('ignore_case',False)") else s_
         f = gm.formula(x, G.GuardEnv(rename=ren), alias=True)
-        c.check("C03.R10", G.implies(f, G.Atom("row_ignore_case")), repo.loc(m, x), f"_ignore_case/{norm(x)}", f"`{norm(x)}` is applied under {G.show(f)}, which does not imply that the rule of this very "
+        c.check(rid, G.implies(f, G.Atom("row_ignore_case")), repo.loc(m, x), f"_ignore_case/{norm(x)}", f"`{norm(x)}` is applied under {G.show(f)}, which does not imply that the rule of this very "
                 "row asks for it", key_text="fold-unguarded")
